@@ -49,7 +49,8 @@ use std::sync::atomic::{AtomicU64, Ordering};
 use std::sync::{Arc, Mutex, OnceLock};
 use std::time::{Duration, Instant};
 use vh::args::Args;
-use vh::broker::{Broker, BrokerCfg};
+use amq_protocol::frame::AMQPFrame;
+use vh::broker::{Broker, BrokerCfg, Handled};
 use vh::mocknet::{Net, Reactor, Reply};
 use vh::session;
 use vh::trace::{self, gev, greset, Shards};
@@ -190,6 +191,7 @@ fn main() {
     let ch = a.num("ch", 1) as u16;
     let sh = a.num("sh", 1) as u16;
     let end_ms = a.num("end", 3000) as i64;
+    let open_delay = a.num("open-delay", 0) as u64;
     let sched_v: Value = serde_json::from_str(&a.str("sched", "[]")).expect("--sched is JSON");
     let sched: Vec<(i64, String)> = sched_v
         .as_array()
@@ -239,8 +241,27 @@ fn main() {
         None,
         |net| {
             *NET.lock().unwrap_or_else(|e| e.into_inner()) = Some(net.clone());
+            let mut inner = Broker::new(bcfg);
+            if open_delay > 0 {
+                // a slow server: Connection.Open is answered only after `open_delay` ms (the heartbeat
+                // timers have been running since TuneOk)
+                let net2 = net.clone();
+                inner.custom = Some(Box::new(move |_b, f, _reply| {
+                    if let AMQPFrame::Method(0, AMQPClass::Connection(Cn::Open(_))) = f {
+                        let net3 = net2.clone();
+                        std::thread::spawn(move || {
+                            std::thread::sleep(Duration::from_millis(open_delay));
+                            let ok = AMQPClass::Connection(Cn::OpenOk(connection::OpenOk { known_hosts: String::new() }));
+                            push(&net3, &wire::method(0, ok), "push", "openok");
+                        });
+                        Handled::Done
+                    } else {
+                        Handled::Default
+                    }
+                }));
+            }
             net.set_reactor(Box::new(Stamp {
-                inner: Broker::new(bcfg),
+                inner,
                 net: net.clone(),
                 buf: Vec::new(),
                 pos: 0,
